@@ -137,7 +137,19 @@ fn add_result(s: &mut Sys, r: Result<(ModulatorId, Handle, Book), ()>, out: &mut
 	}
 }
 
+/// report an oracle failure once per callback and kind (kind = name + detail with the numbers removed)
+fn ofail(out: &mut Out, reported: &mut Vec<String>, name: &str, detail: impl std::fmt::Display) {
+	let detail = detail.to_string();
+	let class = detail.split(" :: ").nth(1).unwrap_or("");
+	let key: String = format!("{} {}", name, class.chars().filter(|c| !c.is_ascii_digit()).collect::<String>());
+	if !reported.contains(&key) {
+		reported.push(key);
+		out.oracle_fail(name, detail);
+	}
+}
+
 fn callback(s: &mut Sys, frames: usize, l: &str, out: &mut Out) {
+	let mut reported: Vec<String> = vec![];
 	// ---- expected bookkeeping at on_start_processing (what the property says should happen) ----
 	for m in s.mods.iter_mut() {
 		if m.in_store && m.handle.is_none() {
@@ -241,7 +253,7 @@ fn callback(s: &mut Sys, frames: usize, l: &str, out: &mut Out) {
 	}
 	let got_sizes: Vec<usize> = chunks.iter().map(|c| c.sounds[0].1).collect();
 	if got_sizes != expect_sizes || leftover {
-		out.oracle_fail("sys_chunking", l);
+		ofail(out, &mut reported, "sys_chunking", l);
 	}
 
 	let mut line = format!("cb {}", chunks.len());
@@ -270,13 +282,13 @@ fn callback(s: &mut Sys, frames: usize, l: &str, out: &mut Out) {
 
 		// =============================== oracles (C17) ===============================
 		if left.iter().zip(&right).any(|(a, b)| a.to_bits() != b.to_bits()) {
-			out.oracle_fail("sys_stereo", l);
+			ofail(out, &mut reported, "sys_stereo", l);
 		}
 		if c.disorder {
-			out.oracle_fail("sys_once_per_chunk", format!("{} :: a modulator was updated after a reader", l));
+			ofail(out, &mut reported, "sys_once_per_chunk", format!("{} :: a modulator was updated after a reader", l));
 		}
 		if s0.2.to_bits() != s.dt.to_bits() || c.sounds.iter().any(|x| x.1 != n) {
-			out.oracle_fail("sys_chunking", format!("{} :: dt/frames seen by sounds", l));
+			ofail(out, &mut reported, "sys_chunking", format!("{} :: dt/frames seen by sounds", l));
 		}
 		for m in s.mods.iter_mut() {
 			if m.in_store {
@@ -285,12 +297,12 @@ fn callback(s: &mut Sys, frames: usize, l: &str, out: &mut Out) {
 		}
 		// presence: a modulator resolves iff it is in the store
 		if sound_seen.len() != s.mods.len() {
-			out.oracle_fail("sys_presence", format!("{} :: watch list length", l));
+			ofail(out, &mut reported, "sys_presence", format!("{} :: watch list length", l));
 			continue;
 		}
 		for (k, m) in s.mods.iter().enumerate() {
 			if sound_seen[k].is_some() != m.in_store {
-				out.oracle_fail("sys_presence", format!("{} :: modulator {} in_store={}", l, k, m.in_store));
+				ofail(out, &mut reported, "sys_presence", format!("{} :: modulator {} in_store={}", l, k, m.in_store));
 			}
 		}
 		// each probe modulator: updated exactly once, in insertion order, before every reader, with the chunk's dt
@@ -298,7 +310,7 @@ fn callback(s: &mut Sys, frames: usize, l: &str, out: &mut Out) {
 			s.mods.iter().enumerate().filter(|(_, m)| m.in_store && matches!(m.book, Book::Probe)).map(|(k, _)| k).collect();
 		let got_probes: Vec<usize> = c.mods.iter().map(|x| x.0).collect();
 		if expected_probes != got_probes {
-			out.oracle_fail("sys_once_per_chunk", format!("{} :: updates {:?} expected {:?}", l, got_probes, expected_probes));
+			ofail(out, &mut reported, "sys_once_per_chunk", format!("{} :: updates {:?} expected {:?}", l, got_probes, expected_probes));
 		}
 		for (k, dt, value, seen) in &c.mods {
 			let k = *k;
@@ -306,27 +318,27 @@ fn callback(s: &mut Sys, frames: usize, l: &str, out: &mut Out) {
 				continue;
 			}
 			if dt.to_bits() != dtc.to_bits() {
-				out.oracle_fail("sys_once_per_chunk", format!("{} :: modulator {} dt", l, k));
+				ofail(out, &mut reported, "sys_once_per_chunk", format!("{} :: modulator {} dt", l, k));
 			}
 			if *value != s.mods[k].chunks_alive as f64 || sound_seen[k] != Some(*value) {
-				out.oracle_fail("sys_once_per_chunk", format!("{} :: modulator {} update count", l, k));
+				ofail(out, &mut reported, "sys_once_per_chunk", format!("{} :: modulator {} update count", l, k));
 			}
 			// what this modulator saw of the others, against the values of *this* chunk
 			for j in 0..s.mods.len() {
 				if !s.mods[j].in_store {
 					if seen[j].is_some() {
-						out.oracle_fail("sys_mod_sees_mod", format!("{} :: reader={} source={} relation=absent", l, k, j));
+						ofail(out, &mut reported, "sys_mod_sees_mod", format!("{} :: reader={} source={} relation=absent", l, k, j));
 					}
 					continue;
 				}
 				if j == k {
 					let x = seen[j];
 					if x != Some(*value) && x != Some(*value - 1.0) {
-						out.oracle_fail("sys_mod_sees_mod", format!("{} :: reader={} source={} relation=self", l, k, j));
+						ofail(out, &mut reported, "sys_mod_sees_mod", format!("{} :: reader={} source={} relation=self", l, k, j));
 					}
 				} else if seen[j] != sound_seen[j] {
 					let rel = if j < k { "earlier" } else { "later" };
-					out.oracle_fail("sys_mod_sees_mod", format!("{} :: reader={} source={} relation={}", l, k, j, rel));
+					ofail(out, &mut reported, "sys_mod_sees_mod", format!("{} :: reader={} source={} relation={}", l, k, j, rel));
 				}
 			}
 		}
@@ -364,7 +376,7 @@ fn callback(s: &mut Sys, frames: usize, l: &str, out: &mut Out) {
 							v == mapping.map(src)
 						};
 						if !ok {
-							out.oracle_fail(
+							ofail(out, &mut reported, 
 								"sys_lfo_link_same_chunk",
 								format!("{} :: reader={} source={} relation={}", l, k, j, rel),
 							);
@@ -376,7 +388,7 @@ fn callback(s: &mut Sys, frames: usize, l: &str, out: &mut Out) {
 				Book::Tw(b) => {
 					if let Some(x) = b.landed_on {
 						if v != x {
-							out.oracle_fail("sys_tweener_holds", format!("{} :: modulator {}", l, k));
+							ofail(out, &mut reported, "sys_tweener_holds", format!("{} :: modulator {}", l, k));
 						}
 					}
 					if let Some((st, t, d, el, linear)) = b.flight {
@@ -385,18 +397,18 @@ fn callback(s: &mut Sys, frames: usize, l: &str, out: &mut Out) {
 						let (lo, hi) = (st.min(t), st.max(t));
 						let slack = 1e-9 * (hi - lo).abs().max(lo.abs()).max(hi.abs()).max(1e-30);
 						if !(v >= lo - slack && v <= hi + slack) {
-							out.oracle_fail("sys_tweener_curve", format!("{} :: modulator {} interval", l, k));
+							ofail(out, &mut reported, "sys_tweener_curve", format!("{} :: modulator {} interval", l, k));
 						}
 						if el > d * (1.0 + 1e-9) + 1e-12 {
 							if v != t {
-								out.oracle_fail("sys_tweener_curve", format!("{} :: modulator {} landing", l, k));
+								ofail(out, &mut reported, "sys_tweener_curve", format!("{} :: modulator {} landing", l, k));
 							}
 							b.landed_on = Some(t);
 							b.flight = None;
 						} else if linear && el < d * (1.0 - 1e-9) {
 							let expect = st + (t - st) * (el / d);
 							if (v - expect).abs() > 1e-9 * (1.0 + st.abs() + t.abs()) {
-								out.oracle_fail("sys_tweener_curve", format!("{} :: modulator {} linear", l, k));
+								ofail(out, &mut reported, "sys_tweener_curve", format!("{} :: modulator {} linear", l, k));
 							}
 						}
 					}
@@ -410,7 +422,7 @@ fn callback(s: &mut Sys, frames: usize, l: &str, out: &mut Out) {
 						let slack = 1e-12 * (1.0 + a.abs() + o.abs());
 						if (v - o).abs() > a.abs() + slack {
 							let class = if b.phase < 0.0 { "negphase" } else { "phase>=0" };
-							out.oracle_fail(
+							ofail(out, &mut reported, 
 								"sys_lfo_range",
 								format!("{} :: modulator {} {} wf={}", l, k, class, wf_name(b.waveform)),
 							);
@@ -424,7 +436,7 @@ fn callback(s: &mut Sys, frames: usize, l: &str, out: &mut Out) {
 								let near_corner = matches!(b.waveform, Waveform::Saw | Waveform::Pulse { .. })
 									&& ((p < 1e-6) || (p > 1.0 - 1e-6));
 								if !near_corner && (v - expect).abs() > tol {
-									out.oracle_fail("sys_lfo_curve", format!("{} :: modulator {}", l, k));
+									ofail(out, &mut reported, "sys_lfo_curve", format!("{} :: modulator {}", l, k));
 								}
 							}
 						}
@@ -441,12 +453,12 @@ fn callback(s: &mut Sys, frames: usize, l: &str, out: &mut Out) {
 				match sound_seen.get(j).copied().flatten() {
 					Some(src) => {
 						if param != mapping.map(src) {
-							out.oracle_fail("sys_reader_same_chunk", format!("{} :: sound {} source={}", l, i, j));
+							ofail(out, &mut reported, "sys_reader_same_chunk", format!("{} :: sound {} source={}", l, i, j));
 						}
 					}
 					None => {
 						if param.to_bits() != sb.last_param.to_bits() {
-							out.oracle_fail("sys_holds_after_removed", format!("{} :: sound {} source={}", l, i, j));
+							ofail(out, &mut reported, "sys_holds_after_removed", format!("{} :: sound {} source={}", l, i, j));
 						}
 					}
 				}
@@ -462,7 +474,7 @@ fn callback(s: &mut Sys, frames: usize, l: &str, out: &mut Out) {
 					// as_amplitude jumps at -60 dB: an f32 ulp decides there
 					let at_jump = (db.0 + 60.0).abs() < 0.01;
 					if !at_jump && (last - expect).abs() > 1e-5 * expect.abs() + 1e-7 {
-						out.oracle_fail("sys_gain_follows", format!("{} :: source={}", l, j));
+						ofail(out, &mut reported, "sys_gain_follows", format!("{} :: source={}", l, j));
 					}
 					s.hold_chunks = 0;
 				}
@@ -472,7 +484,7 @@ fn callback(s: &mut Sys, frames: usize, l: &str, out: &mut Out) {
 					if s.hold_chunks >= 2 && s.last_level == Some(level) {
 						if let Some(g) = s.last_gain_sample {
 							if left.iter().any(|x| x.to_bits() != g.to_bits()) {
-								out.oracle_fail("sys_holds_after_removed", format!("{} :: main volume source={}", l, j));
+								ofail(out, &mut reported, "sys_holds_after_removed", format!("{} :: main volume source={}", l, j));
 							}
 						}
 					}
